@@ -1,8 +1,15 @@
 package consensus
 
 import (
+	"time"
+
 	"github.com/idena-network/idena-go/blockchain"
 	"github.com/idena-network/idena-go/blockchain/types"
+	"github.com/idena-network/idena-go/common"
+	"github.com/idena-network/idena-go/config"
+	"github.com/idena-network/idena-go/core/appstate"
+	"github.com/idena-network/idena-go/log"
+	"github.com/idena-network/idena-go/pengings"
 	"github.com/idena-network/idena-go/stats/collector"
 )
 
@@ -20,4 +27,15 @@ func (resolver *ForkResolver) VerifOffer(bundles []types.BlockBundle) error {
 	}
 	close(ch)
 	return resolver.processBlocks(ch, "verif-peer")
+}
+
+// ---- C07: vote counter driver
+
+// VerifNewCounter builds an Engine that holds exactly what countVotes reads.
+func VerifNewCounter(chain *blockchain.Blockchain, appState *appstate.AppState, votes *pengings.Votes, offline *blockchain.OfflineDetector, cfg *config.Config) *Engine {
+	return &Engine{chain: chain, appState: appState, votes: votes, offlineDetector: offline, cfg: cfg, log: log.New(), statsCollector: collector.NewStatsCollector()}
+}
+
+func (engine *Engine) VerifCountVotes(round uint64, step uint8, parentHash common.Hash, necessaryVotesCount int, timeout time.Duration) (common.Hash, *types.FullBlockCert, error) {
+	return engine.countVotes(round, step, parentHash, necessaryVotesCount, timeout)
 }
